@@ -296,10 +296,15 @@ def generate(repo):
     t = RasterTranslator(m, vp_funcs, prefix='raster_', errors=errors)
     # structural data
     sites = store_sites(m)
-    t.emit('(* every subscript store in graphics.py (all are `self.graph_view[y, x] = data`): '
-           '(line, y is a slice, x is a slice) *)')
-    t.emit('Definition raster_store_sites : list (Z * Z * Z) := [\n  %s].' % ';\n  '.join(
-        '(%d, %d, %d) (* %s *)' % s for s in sites))
+    t.emit('(* every subscript store in graphics.py, in source order (all are `self.graph_view[y, x] = data`): '
+           '(y is a slice, x is a slice) *)')
+    t.emit('Definition raster_store_sites : list (Z * Z) := [\n  %s].' % ';\n  '.join(
+        '(%d, %d) (* %s *)' % s[1:] for s in sites))
+    # the single-pixel owners: CIRCLE / ellipse / line / straight / PSET never write a slice
+    for s_ in sites:
+        if s_[3] in ('Graphics._draw_circle', 'Graphics._draw_ellipse', 'Graphics._draw_line',
+                     'Graphics._draw_straight', 'Graphics._pset_preset') and (s_[1] or s_[2]):
+            raise Refuse('%s writes a slice at line %d' % (s_[3], s_[0]))
     refs = pixel_buffer_refs(m)
     t.emit('(* the only mentions of page pixel buffers in class Graphics: %s *)' % ', '.join(
         '%s:%s' % (a, b) for a, b, _ in refs))
@@ -328,4 +333,4 @@ def generate(repo):
     t.method('_draw_box_filled')
     t.method('_draw_straight')
     t.method('_draw_box')
-    return (HEADER + 'From PCB Require Import lib.GfxPrims gen.Gen_viewport.\n' + '\n'.join(t.out) + '\n')
+    return gen_viewport.stable(HEADER + 'From PCB Require Import lib.GfxPrims gen.Gen_viewport.\n' + '\n'.join(t.out) + '\n')
